@@ -24,9 +24,8 @@ Proof. exact sanitize_nonempty. Qed.
 Definition C12_compile_wf_full : Prop :=
   forall s env, exists g, gbnf_parse (compile_schema s env) = Some g /\ wf g = true.
 
-(* the restriction the design aims at.  OPEN: not proved in this development (the per-line recogniser lemmas
-   were not finished); it is CHECKED on every generated schema of every run by harness/props/c12.py
-   ("safe_schema holds but the grammar is not well-formed" is reported as a broken obligation). *)
+(* the restriction the design aimed at (hypothesis safe_schema only).  It is REFUTED below
+   (C12_compile_wf_under_safe_schema_refuted: a NUL inside a REGEX class); C12_compile_wf adds the missing clause. *)
 Definition C12_compile_wf_under_safe_schema_OPEN : Prop :=
   forall s env, safe_schema s env = true -> wf_text (compile_schema s env) = true.
 
@@ -67,6 +66,43 @@ Proof. exact refuted_underscore. Qed.
 Theorem C12_compile_wf_refuted : exists s env, wf_text (compile_schema s env) = false.
 Proof. exists (sch [fld w_CONTENT [CReq]]), true. exact (f_equal (fun c => N.eqb c 0) refuted_content). Qed.
 
+(* ---- repo commit 481c8b3: field names and the schema name go through _escape_literal ------------------------- *)
+(* regressions: schema named  a dq b backslash c  with a field named  dq q r dq  -- in the safe class and well-formed,
+   with and without envelope *)
+Theorem C12_regress_escaped_names_wf :
+  safe_schema regress_schema true = true /\ safe_schema regress_schema false = true /\
+  wf_text (compile_schema regress_schema true) = true /\ wf_text (compile_schema regress_schema false) = true.
+Proof. exact regress_escaped_names_wf. Qed.
+
+Theorem C12_regress_quoted_field_name_wf :
+  wf_text (compile_schema (sch [fld w_qr [CReq]]) true) = true /\ wf_text (compile_schema (sch [fld w_qr [CReq]]) false) = true.
+Proof. exact regress_quoted_field_name_wf. Qed.
+
+Theorem C12_regress_schema_name_wf :
+  wf_text (compile_schema (sch_named w_aqbc [fld w_NAME [CReq]]) true) = true /\
+  wf_text (compile_schema (sch_named w_aqbc []) true) = true.
+Proof. exact regress_schema_name_wf. Qed.
+
+(* the OLD templates (the generated list with the two wrapped holes replaced by the raw ones = the two pre-fix source
+   lines) were ill-formed on these witnesses: undefined references q, r (code 3); unparsable envelope literal (code 1) *)
+Theorem C12_raw_names_prog_is_pre_fix_template :
+  filter (fun e : str * list gpart => tpl_has_hole [e] h_field_name || tpl_has_hole [e] h_schema_upper) raw_names_prog
+  = [(g_per_field, [PHole h_rule_name; PLit [32;58;58;61;32;34]; PHole h_field_name; PLit [34;32;34;58;58;34;32;119;115;32];
+                    PHole h_pattern]);
+     (g_envelope, [PLit [101;110;118;101;108;111;112;101;45;115;116;97;114;116;32;58;58;61;32;34;61;61;61];
+                   PHole h_schema_upper; PLit [61;61;61;34]])]
+  /\ tpl_has_hole raw_names_prog h_field_name_esc = false /\ tpl_has_hole raw_names_prog h_schema_upper_esc = false.
+Proof. exact raw_names_prog_is_pre_fix_template. Qed.
+
+Theorem C12_unescaped_name_was_ill_formed :
+  wf_text_code (compile_schema_raw_names (sch [fld w_qr [CReq]]) true) = 3%N /\
+  wf_text_code (compile_schema_raw_names (sch [fld w_qr [CReq]]) false) = 3%N /\
+  wf_text_code (compile_schema_raw_names (sch_named w_aqbc [fld w_NAME [CReq]]) true) = 1%N /\
+  wf_text_code (compile_schema (sch [fld w_qr [CReq]]) true) = 0%N /\
+  wf_text_code (compile_schema (sch [fld w_qr [CReq]]) false) = 0%N /\
+  wf_text_code (compile_schema (sch_named w_aqbc [fld w_NAME [CReq]]) true) = 0%N.
+Proof. exact unescaped_name_was_ill_formed. Qed.
+
 (* ---- ties to the current source text ---------------------------------------------------------------------- *)
 Theorem C12_pin_escape_chain : gbnf_escape_chain = [([c_bs], [c_bs; c_bs]); ([c_dq], [c_bs; c_dq])].
 Proof. exact pin_escape_chain. Qed.
@@ -79,6 +115,15 @@ Theorem C12_pin_dispatch :
   map fst gbnf_dispatch = [cls_Required; cls_Optional; cls_Enum; cls_Const; cls_Type; cls_Regex; cls_Dir; cls_Append;
                            cls_Range; cls_MaxLen; cls_MinLen; cls_Date; cls_Iso].
 Proof. exact pin_dispatch_classes. Qed.
+
+(* the templates escape every occurrence of the field name and of the upper-cased schema name *)
+Theorem C12_pin_names_escaped : gbnf_field_name_escaped = true /\ gbnf_schema_name_escaped = true.
+Proof. exact pin_names_escaped. Qed.
+
+Theorem C12_pin_escape_flags_agree_with_templates :
+  gbnf_field_name_escaped = negb (tpl_has_hole gbnf_schema_prog h_field_name) /\
+  gbnf_schema_name_escaped = negb (tpl_has_hole gbnf_schema_prog h_schema_upper).
+Proof. exact pin_escape_flags. Qed.
 
 Theorem C12_pin_schema_templates_closed :
   forallb (fun e : str * list gpart =>
@@ -126,6 +171,32 @@ Proof. exact compile_parse_wf. Qed.
 Theorem C12_compile_wf_modulo_nul : forall s env,
   safe_schema s env && regex_nul_free s = true -> wf_text (compile_schema s env) = true.
 Proof. exact compile_wf_full_modulo_nul. Qed.
+
+(* the safe class of this development contains the pre-481c8b3 class (names free of quote / backslash) ... *)
+Theorem C12_safe_class_grew : forall s env, safe_schema_raw_names s env = true -> safe_schema s env = true.
+Proof. exact safe_class_grew. Qed.
+
+(* ... strictly (clauses 3 and 4 of the old class fail on the regression schema: 8 + 16) *)
+Theorem C12_safe_class_grew_strictly :
+  safe_schema regress_schema true = true /\ safe_schema_raw_names regress_schema true = false
+  /\ schema_clauses_raw_names regress_schema true = 24%N.
+Proof. exact safe_class_grew_strictly. Qed.
+
+(* so the main theorem also holds, a fortiori, with the old hypothesis *)
+Theorem C12_compile_wf_regress_by_theorem :
+  wf_text (compile_schema regress_schema true) = true /\ wf_text (compile_schema regress_schema false) = true.
+Proof. exact regress_by_theorem. Qed.
+
+(* the field line and the envelope line, for EVERY name: the literal read back is the name itself *)
+Theorem C12_field_line_shape : forall f,
+  field_line f = rule_name_of f ++ [32;58;58;61;32;34] ++ escape_literal (fd_name f) ++ [34;32;34;58;58;34;32;119;115;32]
+                 ++ pattern_of f.
+Proof. exact field_line_eq. Qed.
+
+Theorem C12_env_start_line_rule : forall s,
+  line_rule (env_start_line s)
+  = Some (mkRule n_env_start [[ILit ([61;61;61] ++ py_upper (sc_name s) (sc_upper s) ++ [61;61;61])]]).
+Proof. exact env_start_line_rule. Qed.
 
 (* stages: no field / no picked REGEX member need no extra clause *)
 Theorem C12_compile_wf_partial_no_fields : forall s env,
